@@ -66,15 +66,19 @@ theorem toroidal_idem (x a b : F) (hab : a < b) :
 
 end Floor
 
-/-! ### Mirror -/
+/-! ### Mirror (fold by `rem_euclid`, then reflect until inside)
+
+`remE x m = x − m·⌊x/m⌋` is `f64::rem_euclid` in exact arithmetic; `triangle a b x` is the triangle wave of
+period `2(b − a)` through `[a, b]` (both defined in `Proofs/C14.lean`). -/
 
 /-- Every pass of the loop body reduces the distance to `[a, b]` by exactly the width (or to zero). -/
 theorem mirror_step_progress (a b x : F) (hab : a < b) :
     excess a b (mirrorStep a b x) = max (excess a b x - (b - a)) 0 :=
   excess_step a b x hab
 
-/-- Termination in exact arithmetic: after at most `⌈|x − a| / (b − a)⌉` passes the value is inside. -/
-theorem mirror_terminates [FloorRing F] (a b x : F) (hab : a < b) :
+/-- The loop alone (the operator as it was before the fold) needs up to `⌈|x − a| / (b − a)⌉` passes:
+linear in the distance — the reason for the fold. -/
+theorem mirror_stepwise_terminates [FloorRing F] (a b x : F) (hab : a < b) :
     ∃ n, n ≤ ⌈|x - a| / (b - a)⌉₊ ∧ a ≤ mirrorIter a b n x ∧ mirrorIter a b n x ≤ b := by
   have hd : 0 < b - a := by linarith
   refine ⟨⌈|x - a| / (b - a)⌉₊, le_refl _, ?_⟩
@@ -86,28 +90,85 @@ theorem mirror_terminates [FloorRing F] (a b x : F) (hab : a < b) :
   have := excess_le_abs a b x hab
   linarith
 
-/-- The fuelled loop of the model returns, with a value inside, as soon as the fuel covers that bound. -/
-theorem mirror_returns [FloorRing F] (a b x : F) (hab : a < b) (fuel : Nat)
-    (hf : ⌈|x - a| / (b - a)⌉₊ ≤ fuel) :
-    ∃ y, mirror fuel x (a, b) = some y ∧ a ≤ y ∧ y ≤ b := by
+section MirrorFold
+variable [FloorRing F]
+
+/-- `remE` is the Euclidean remainder: in `[0, m)` and congruent to `x` modulo `m` — and it is the only
+such value. -/
+theorem remE_is_euclidean_remainder (x m : F) (hm : 0 < m) :
+    0 ≤ remE x m ∧ remE x m < m ∧ (∃ k : ℤ, x = remE x m + k * m) ∧
+    ∀ (r : F) (k : ℤ), 0 ≤ r → r < m → x = r + k * m → r = remE x m :=
+  ⟨remE_nonneg x m hm, remE_lt x m hm, ⟨_, remE_repr x m⟩,
+   fun r k h0 h1 hx => (remE_unique x m r k hm h0 h1 hx).symm⟩
+
+/-- Termination for EVERY coordinate, with an explicit bound: after the fold the loop body runs at
+most once (so certainly at most twice) before the value is inside. -/
+theorem mirror_terminates (a b x : F) (hab : a < b) :
+    ∃ n, n ≤ 1 ∧ a ≤ mirrorIter a b n (mirrorFold remE a b x) ∧ mirrorIter a b n (mirrorFold remE a b x) ≤ b := by
+  obtain ⟨h1, h2⟩ := mirrorFold_range a b x hab
+  exact mirrorIter_one_of_near a b _ h1 h2
+
+/-- The fuelled model returns, with a value inside, for every coordinate as soon as the fuel allows
+one pass. -/
+theorem mirror_returns (a b x : F) (hab : a < b) (fuel : Nat) (hf : 1 ≤ fuel) :
+    ∃ y, mirror remE fuel x (a, b) = some y ∧ a ≤ y ∧ y ≤ b := by
   obtain ⟨n, hn, h1, h2⟩ := mirror_terminates a b x hab
-  obtain ⟨y, hy⟩ := mirrorLoop_of_iter a b n fuel x (le_trans hn hf) h1 h2
-  obtain ⟨_, _, _, hb⟩ := mirrorLoop_eq_iter a b fuel x y hy
+  obtain ⟨y, hy⟩ := mirrorLoop_of_iter a b n fuel _ (le_trans hn hf) h1 h2
+  obtain ⟨_, _, _, hb⟩ := mirrorLoop_eq_iter a b fuel _ y hy
   exact ⟨y, hy, hb⟩
 
-/-- Whatever the loop returns is inside (for any fuel). -/
-theorem mirror_result_in_bounds (a b x y : F) (fuel : Nat) (h : mirror fuel x (a, b) = some y) :
-    a ≤ y ∧ y ≤ b := by
-  obtain ⟨_, _, _, hb⟩ := mirrorLoop_eq_iter a b fuel x y h
+/-- Closed form: the operator computes the triangle wave. -/
+theorem mirror_closed_form (a b x : F) (hab : a < b) (fuel : Nat) (hf : 1 ≤ fuel) :
+    mirror remE fuel x (a, b) = some (triangle a b x) := by
+  obtain ⟨y, hy, _⟩ := mirror_returns a b x hab fuel hf
+  rw [hy, mirrorLoop_eq_triangle a b _ y hab fuel hy, triangle_fold a b x hab]
+
+/-- The step-by-step reflection (the operator before the fold), wherever it returns, returns the
+same triangle wave … -/
+theorem mirror_stepwise_closed_form (a b x y : F) (hab : a < b) (fuel : Nat)
+    (h : mirrorStepwise fuel x (a, b) = some y) : y = triangle a b x :=
+  mirrorLoop_eq_triangle a b x y hab fuel h
+
+/-- … so for EVERY coordinate the folded operator returns exactly what step-by-step reflection
+returns (given the fuel the latter needs): the fold changed the running time, not the result. -/
+theorem mirror_agrees_with_stepwise (a b x y : F) (hab : a < b) (fuel fuel' : Nat) (hf : 1 ≤ fuel')
+    (h : mirrorStepwise fuel x (a, b) = some y) : mirror remE fuel' x (a, b) = some y := by
+  rw [mirror_closed_form a b x hab fuel' hf, mirror_stepwise_closed_form a b x y hab fuel h]
+
+/-- … and step-by-step reflection does return once its fuel covers `⌈|x − a| / (b − a)⌉` passes. -/
+theorem mirror_stepwise_returns (a b x : F) (hab : a < b) (fuel : Nat) (hf : ⌈|x - a| / (b - a)⌉₊ ≤ fuel) :
+    mirrorStepwise fuel x (a, b) = some (triangle a b x) := by
+  obtain ⟨n, hn, h1, h2⟩ := mirror_stepwise_terminates a b x hab
+  obtain ⟨y, hy⟩ := mirrorLoop_of_iter a b n fuel x (le_trans hn hf) h1 h2
+  have := mirror_stepwise_closed_form a b x y hab fuel hy
+  subst this; exact hy
+
+end MirrorFold
+
+/-- For a coordinate within one width of the domain the fold is not taken, whatever `rem_euclid`
+does: the operator IS the step-by-step reflection there (nothing changed, bit for bit). -/
+theorem mirror_near_is_stepwise (rem : F → F → F) (a b x : F) (fuel : Nat)
+    (h1 : a - (b - a) ≤ x) (h2 : x ≤ b + (b - a)) :
+    mirror rem fuel x (a, b) = mirrorStepwise fuel x (a, b) := by
+  simp only [mirror, mirrorStepwise, mirrorFold_near rem a b x h1 h2]
+
+/-- Whatever the operator returns is inside (for any fuel, and whatever `rem_euclid` does: the loop
+only exits inside). -/
+theorem mirror_result_in_bounds (rem : F → F → F) (a b x y : F) (fuel : Nat)
+    (h : mirror rem fuel x (a, b) = some y) : a ≤ y ∧ y ≤ b := by
+  obtain ⟨_, _, _, hb⟩ := mirrorLoop_eq_iter a b fuel _ y h
   exact hb
 
-theorem mirror_fix_inside (a b x : F) (fuel : Nat) (h1 : a ≤ x) (h2 : x ≤ b) :
-    mirror fuel x (a, b) = some x := mirrorLoop_inside a b fuel x h1 h2
+theorem mirror_fix_inside (rem : F → F → F) (a b x : F) (fuel : Nat) (h1 : a ≤ x) (h2 : x ≤ b) :
+    mirror rem fuel x (a, b) = some x := by
+  have hd : 0 ≤ b - a := by linarith
+  rw [mirror_near_is_stepwise rem a b x fuel (by linarith) (by linarith)]
+  exact mirrorLoop_inside a b fuel x h1 h2
 
-theorem mirror_idem (a b x y : F) (fuel fuel' : Nat) (h : mirror fuel x (a, b) = some y) :
-    mirror fuel' y (a, b) = some y := by
-  obtain ⟨h1, h2⟩ := mirror_result_in_bounds a b x y fuel h
-  exact mirror_fix_inside a b y fuel' h1 h2
+theorem mirror_idem (rem : F → F → F) (a b x y : F) (fuel fuel' : Nat) (h : mirror rem fuel x (a, b) = some y) :
+    mirror rem fuel' y (a, b) = some y := by
+  obtain ⟨h1, h2⟩ := mirror_result_in_bounds rem a b x y fuel h
+  exact mirror_fix_inside rem a b y fuel' h1 h2
 
 /-! ### Complete one-tailed normal correction (scripted deviates `s = |N(0, (b−a)/3)|`) -/
 
@@ -166,15 +227,13 @@ theorem toroidal_solution_in_bounds [FloorRing F] (sol : List F) (dom : List (F 
   zipDomain_all (toroidal floorF) (fun d y => d.1 ≤ y ∧ y ≤ d.2) sol dom hl
     (fun x d hmem => toroidal_in_bounds x d.1 d.2 (hd d hmem))
 
-/-- Mirror on a whole solution, with fuel covering the farthest coordinate of THIS solution. -/
+/-- Mirror on a whole solution: every finite coordinate, fuel for a single pass. -/
 theorem mirror_solution_in_bounds [FloorRing F] (sol : List F) (dom : List (F × F)) (fuel : Nat)
-    (hl : sol.length = dom.length) (hd : ∀ d ∈ dom, d.1 < d.2)
-    (hf : ∀ k (hk : k < sol.length) (hk' : k < dom.length),
-      ⌈|sol[k] - dom[k].1| / (dom[k].2 - dom[k].1)⌉₊ ≤ fuel) :
-    ∃ ys, zipDomainM (mirror fuel) sol dom = some ys ∧ ys.length = sol.length ∧
+    (hl : sol.length = dom.length) (hd : ∀ d ∈ dom, d.1 < d.2) (hf : 1 ≤ fuel) :
+    ∃ ys, zipDomainM (mirror remE fuel) sol dom = some ys ∧ ys.length = sol.length ∧
       ∀ k (hk : k < ys.length) (hk' : k < dom.length), dom[k].1 ≤ ys[k] ∧ ys[k] ≤ dom[k].2 :=
-  zipDomainM_all (mirror fuel) (fun d y => d.1 ≤ y ∧ y ≤ d.2) sol dom hl
-    (fun k hk hk' => mirror_returns dom[k].1 dom[k].2 sol[k] (hd _ (List.getElem_mem hk')) fuel (hf k hk hk'))
+  zipDomainM_all (mirror remE fuel) (fun d y => d.1 ≤ y ∧ y ≤ d.2) sol dom hl
+    (fun k _ hk' => mirror_returns dom[k].1 dom[k].2 sol[k] (hd _ (List.getElem_mem hk')) fuel hf)
 /-- The resampling operator on a whole solution: if it returns, every coordinate is within its own bounds. -/
 theorem onetailed_solution_in_bounds (sol : List F) (dom : List (F × F)) (script ys rest : List F)
     (hl : sol.length = dom.length) (h : oneTailedSolution sol dom script = some (ys, rest)) :
@@ -315,8 +374,14 @@ example : ([2, 0, 1] : List Nat).Perm (List.range 3) := by decide
 example : ∀ d ∈ [((-1 : Rat), (1 : Rat)), (0, 10)], d.1 < d.2 := by
   intro d hd; simp at hd; rcases hd with rfl | rfl <;> norm_num
 example : (0 : Rat) ≤ 7 ∧ (7 : Rat) ≤ 10 - 0 := by norm_num
-/-- the fuel hypothesis of `mirror_returns` / `mirror_solution_in_bounds` is met by a concrete coordinate -/
+/-- the fuel hypothesis of `mirror_stepwise_returns` is met by a concrete coordinate -/
 example : ⌈|(7 : Rat) - (-1)| / (1 - (-1))⌉₊ ≤ 4 := by
   rw [Nat.ceil_le]; norm_num
+/-- the fold on a concrete far coordinate (integer carrier, `rem_euclid` = `Int.emod`): 1e17 on [-1,1] -/
+example : mirror (fun x m : Int => x % m) 1 100000000000000000 (-1, 1) = some 0 := by decide
+example : mirror (fun x m : Int => x % m) 1 (-65) (-10, 10) = some 5 := by decide
+example : mirrorStepwise 5 (-65 : Int) (-10, 10) = some 5 := by decide
+/-- a coordinate within one width: the hypotheses of `mirror_near_is_stepwise` -/
+example : (-1 : Rat) - (1 - (-1)) ≤ -3 ∧ (-3 : Rat) ≤ 1 + (1 - (-1)) := by norm_num
 
 end MahfModel.Props.C14
